@@ -27,7 +27,17 @@ from ..par import pmap
 from ..tlc import run_tlc
 
 PID = "C17"
-MAX_VIOLATIONS = 40
+MAX_VIOLATIONS = 60
+MAX_PER_AGG_CLAUSE = 4
+
+
+def _room(ctx: Ctx, agg: str, clause: str) -> bool:
+    k = f"listed:{agg}:{clause}"
+    if len(ctx.violations) >= MAX_VIOLATIONS or ctx.counters.get(k, 0) >= MAX_PER_AGG_CLAUSE:
+        ctx.count("violations_not_listed")
+        return False
+    ctx.count(k)
+    return True
 EXPS = {"quick": [-100, -13, 0, 40], "thorough": [-332, -100, -43, -13, 0, 13, 40, 100, 331]}
 
 
@@ -43,8 +53,7 @@ def scn_name(scn: dict) -> str:
 def report(ctx: Ctx, scn: dict, res: dict, exps: list[int]) -> None:
     for f in res["fails"]:
         ctx.count("fail:" + f["agg"].split("(")[0])
-        if len(ctx.violations) >= MAX_VIOLATIONS:
-            ctx.count("violations_not_listed")
+        if not _room(ctx, f["agg"].split("(")[0], f["what"]):
             continue
         key = f"{f['agg']}:{f['what']}:{scn_name(scn)}:2^{f['e']}"
         ctx.violation(key, f"{f['agg']} on 2^{f['e']} x {scn_name(scn)}: {f['what']} – {f.get('why')}; "
@@ -69,8 +78,7 @@ def validate_episodes(ctx: Ctx, episodes: list[dict]) -> dict:
     for rj in res.prints.get("REJECT", []):
         e = by_ep[rj["ep"]]
         ctx.count("reject:" + rj["clause"])
-        if len(ctx.violations) >= MAX_VIOLATIONS:
-            ctx.count("violations_not_listed")
+        if not _room(ctx, "trace:" + e["agg"], rj["clause"]):
             continue
         key = f"trace:{e['agg']}:{rj['clause']}:{e['J']}:u={e['u']}:2^{e['e']}"
         ctx.violation(key, f"{e['agg']}(u={'default' if e['default'] else e['u']}) on 2^{e['e']} x {e['J']}: "
